@@ -2,7 +2,7 @@
    model); statement-side definitions: V.C08.Spec (good_name, sitem/sym_of = the symbols the converter's flush writes,
    ok_item, node_of). *)
 Require Import V.Lib.Base V.Lib.Calls V.Lib.Dec V.Gen.Consts V.Gen.Consts_C02 V.Gen.Consts_C08 V.C02.Model V.C02.Spec V.C08.Model V.C08.Spec
-               V.C08.ProofsStr V.C08.ProofsSym V.C08.ProofsFlush V.C02.ProofsMap V.C08.ProofsConv V.C08.ProofsTrip.
+               V.C08.ProofsStr V.C08.ProofsSym V.C08.ProofsFlush V.C02.ProofsMap V.C08.ProofsConv V.C08.ProofsTrip V.C08.ProofsExtVal V.C08.SpecTrip V.C08.ProofsMulti.
 Require Import Permutation.
 Local Open Scope Z_scope.
 
@@ -137,6 +137,15 @@ Theorem c08_externals_trip : forall o out, Forall ext_val_ok out -> snd (read_ba
 Proof. exact read_back_externals. Qed.
 Print Assumptions c08_externals_trip.
 
+(* (4c) ... and the hypothesis of (4b) holds for EVERYTHING the converter model writes (invariant over whole runs: SmData::Atom::extn is the
+   two-bit field `v mod 4`, copied by every operation on the atom map): for every input call sequence p - any number of steps - that the
+   pipeline accepts, all written external values are in 0..3 and the delivered external calls are exactly the written ones. *)
+Theorem c08_externals_pipeline : forall o p s w out,
+  conv_write true cv0 sw0 p = Ok (s, w, out) -> snd (read_back o out) = true ->
+  Forall ext_val_ok out /\ filter is_ext_call (fst (read_back o out)) = filter is_ext_call out.
+Proof. exact pipeline_externals. Qed.
+Print Assumptions c08_externals_pipeline.
+
 Example c08_externals_trip_nonvacuous :
   let p := [CInit false; CBegin; CExternal 1 0; CExternal 2 1; CExternal 3 2; CExternal 4 3; CHeuristic 1 0 1 1 []; CEnd] in
   exists s w out, conv_write true cv0 sw0 p = Ok (s, w, out) /\ Forall ext_val_ok out /\ snd (read_back (mkO true true true) out) = true /\
@@ -183,7 +192,7 @@ Proof. split; vm_compute; reflexivity. Qed.
    c08_flush_shape_partial: NOT proved here - (A) that every name in SmData::symTab_ was emitted as a symbol of this or an earlier
    step and is therefore in the reader's table (an invariant over whole runs of cv_call), (B) that the names a user gives are
    good names / carry no helper prefix (a hypothesis on the input, see notes), (C) the composition over several steps with the
-   reader state.  The differential check compares the composed model `trip` with the real pipeline on every generated program. *)
+   reader state (closed by c08_trip below).  The differential check compares the composed model `trip` with the real pipeline on every generated program. *)
 Theorem c08_flush_shape_partial : forall hs s s' cs, flushHeuristic_f s hs = (s', cs) ->
   exists ds : list (dom * heu),
     cs = map (fun x => out_of (IHeu (fst x))) ds /\
@@ -239,7 +248,7 @@ Theorem c08_flush_step : forall E s its s' cs, SI E s its -> Inv s -> next s' <=
 Proof. exact flush_shape. Qed.
 Print Assumptions c08_flush_step.
 
-(* (9) The composed statement for ONE-STEP programs  p = initProgram(i); beginStep; body; endStep  (body: any calls except the three
+(* (9) The composed statement for ONE-STEP programs (instance of (10))  p = initProgram(i); beginStep; body; endStep  (body: any calls except the three
    protocol calls, each call_ok), through the whole model pipeline  conv_write (converter + writer acceptance) -> read_back (reader):
    if the pipeline accepts (conv_write = Ok with next_ <= 2^28, reader ok) then, with sb = the converter's state at endStep,
    s2 = that state after flushMinimize / flushExternal, tab = the symbols written (name, atom):
@@ -252,12 +261,10 @@ Print Assumptions c08_flush_step.
      es_in, which matches the input's edge calls in order), nodes renamed by node_of nodes, which is injective on every node that occurs;
    - without filter every written symbol is shown; with all three options on the shown symbols are exactly the user's outputs
      (name cut at NUL, on the converter's output atom) and the generated `_atom(k)` names, and no shown name has a helper prefix.
-   c08_trip_partial: MISSING is the induction over SEVERAL steps (incremental programs): c08_flush_step re-establishes the step invariant
-   with E extended by the symbols written, and run_inv / c08_symtab_emitted carry it over whole runs, but the statement that the reader's
-   table (kept across steps iff incremental) contains E at every later step, and the per-step conclusions below for step k, are not
-   composed.  For a non-incremental multi-step text the reader forgets its table, so a heuristic naming a symbol of an earlier step IS
-   dropped there (the model shows it; outside the property's programs).  The conditions ("active in every answer set") are C02's subject. *)
-Theorem c08_trip_partial : forall o i body s' w' out,
+   c08_trip_single (was c08_trip_partial): the ONE-STEP instance, kept because its statement is spelled out without auxiliary
+   definitions; the general statement for any number of steps is c08_trip below (this is its case bodies = [body], T = [], nodes = []).
+   The conditions ("active in every answer set") are C02's subject. *)
+Theorem c08_trip_single : forall o i body s' w' out,
   forallb in_step body = true -> Forall call_ok body ->
   conv_write true cv0 sw0 (CInit i :: CBegin :: body ++ [CEnd]) = Ok (s', w', out) ->
   next s' <= SMID_MOD -> snd (read_back o out) = true ->
@@ -286,7 +293,7 @@ Theorem c08_trip_partial : forall o i body s' w' out,
        (forall c, In c (filter is_out_call d) <-> exists a n, c = COutput n [a] /\ In (a, n) (shown_in ++ gen)) /\
        (forall n a, In (COutput n [a]) (filter is_out_call d) -> no_helper_prefix n)).
 Proof. exact trip_single. Qed.
-Print Assumptions c08_trip_partial.
+Print Assumptions c08_trip_single.
 
 (* non-vacuity: a one-step program with a rule, two named atoms (`a` on atom 1, `p("a,b",f(1,2))` on atom 2), heuristics on the named
    atom 1, on the unnamed atom 3 (gets `_atom(k)`) and on atom 9 that does not occur (dropped), two edges, an external; the hypotheses
@@ -310,5 +317,128 @@ Proof.
     - unfold heu_emax, C_INT_MIN, C_INT_MAX. lia.
     - unfold heu_emax, C_INT_MIN, C_INT_MAX. lia.
     - unfold heu_emax, C_INT_MIN, C_INT_MAX. lia. }
+  do 3 eexists. split; [vm_compute; reflexivity|]. split; [vm_compute; discriminate|]. repeat split; vm_compute; reflexivity.
+Qed.
+
+(* (10) The composed statement for programs of ANY number of steps:  p = prog i bodies = initProgram(i); then for every body of `bodies`:
+   beginStep; body; endStep  (V.C08.SpecTrip).  Every body is body_ok: no protocol call inside, every call call_ok (hypothesis B of (7)).
+   If the model pipeline accepts (conv_write = Ok with next_ <= 2^28, reader ok), the delivered calls are  initProgram(reader_inc out)
+   followed by one segment per step, and  trip_steps o cv0 [] [] bodies segs  holds - by induction over the step list, threading
+     s      the converter state at beginStep (cv0 first; after a step  fst (flush true sb)),
+     T      the CUMULATIVE table of all (name, atom) symbols written in earlier steps ([] first; after a step  T ++ tabk), which IS the
+            reader's SymTab at that point when cHeuristic is on (reader-side invariant of the proof: r_tab st = T, T contains the converter's
+            E of c08_flush_step, all atoms of T non-zero),
+     nodes  the reader's NodeTab ([] first; it only grows: nodes' = nodes ++ e),
+   with, for EVERY step (step_trip o s T nodes body seg s' T' nodes', V.C08.SpecTrip - the conclusions of (9) with the cumulative table):
+   - seg = beginStep; mid; endStep  with no protocol call in mid;
+   - the converter's pending heuristics at endStep are this step's heuristic calls, in order (heuristic_ is empty at every beginStep);
+   - tabk = the symbols this endStep writes, T' = T ++ tabk, all atoms of T' non-zero;
+   - with cHeuristic the heuristic calls in seg are, in order, EXACTLY one per pending heuristic whose atom is mapped after flushMinimize /
+     flushExternal of THIS step (mapped in this or an earlier step), same modifier / bias / priority, condition = the converter's condition
+     atom, on  tab_find name T'  = the atom of the FIRST symbol with the target name written in this OR AN EARLIER step, which is non-zero,
+     and a symbol with that name on the image of the heuristic's own atom is in T'; the others are dropped; without cHeuristic none;
+   - with cEdge one edge call per input edge of the step (permutation = table order), renamed by node_of nodes', injective on every node
+     that occurs; node_of nodes' agrees with the numbering of all earlier steps; without cEdge none and the table is unchanged;
+   - without filter every symbol written in the step is shown; with all three options on the shown symbols of the step are exactly the
+     step's user outputs + the `_atom(k)` names generated in the step, none with a helper prefix;
+   - the external calls in seg are exactly the external calls the converter writes in this step (ob ++ the flush), same atoms (the reader
+     does not renumber), same values, same order.
+   This covers incremental programs (i = true) AND whatever else the reader accepts (see (12): two or more steps are accepted only with the
+   reader's inc flag set, and then it keeps both tables).  NOT in the statement: uniqueness
+   of names (then tab_find name T' is the image of the heuristic's atom), "active in every answer set" (conditions: C02). *)
+Theorem c08_trip : forall o i bodies s' w' out,
+  Forall body_ok bodies ->
+  conv_write true cv0 sw0 (prog i bodies) = Ok (s', w', out) ->
+  next s' <= SMID_MOD -> snd (read_back o out) = true ->
+  exists segs : list (list call),
+    fst (read_back o out) = CInit (reader_inc out) :: concat segs /\
+    trip_steps o cv0 [] [] bodies segs.
+Proof. exact trip_multi. Qed.
+Print Assumptions c08_trip.
+
+(* (11) ... and the edges of ALL steps come back under ONE renaming: node_of nodesF (nodesF = the reader's final node table) - for every step
+   the delivered edge calls are the step's input edges (es_in matches the input's edge calls in order, es is a permutation of es_in)
+   with both nodes renamed by node_of nodesF and the helper atom as condition; node_of nodesF is injective on every node that occurs. *)
+Theorem c08_trip_edges : forall o i bodies s' w' out,
+  Forall body_ok bodies ->
+  conv_write true cv0 sw0 (prog i bodies) = Ok (s', w', out) ->
+  next s' <= SMID_MOD -> snd (read_back o out) = true -> cE o = true ->
+  exists (segs : list (list call)) (nodesF : list (list Z)),
+    fst (read_back o out) = CInit (reader_inc out) :: concat segs /\
+    Forall2 (fun body seg => exists es_in es,
+               Forall2 edge_rel (filter is_edge_call body) es_in /\ Permutation es es_in /\
+               filter is_edge_call seg = map (rename_edge nodesF) es /\
+               (forall c s t, In (c, s, t) es -> In (print_Z s) nodesF /\ In (print_Z t) nodesF)) bodies segs /\
+    (forall z z', In (print_Z z) nodesF -> node_of nodesF z = node_of nodesF z' -> z = z').
+Proof. exact trip_multi_edges. Qed.
+Print Assumptions c08_trip_edges.
+
+(* (12) NON-incremental programs of several steps.  Converter and writer accept them and write the steps one after the other.  The reader
+   (SmodelsInput::doAttach) sets its inc flag from the FIRST BYTE of the text: reader_inc out = i || "the first written line is an external
+   `91 ..`" (starts_with_9).  (a) Flag not set: readSymbols deletes symbol and node table at the end of the step (`if (!incremental())`), and
+   ProgramReader::parse then demands  !more() || incremental() : the second beginStep is refused ("invalid extra input") - for EVERY program
+   of two or more steps, any bodies, any options.  So the forgotten table is never consulted: the first step is delivered (as (10) says for one
+   step), then the read fails.  (b) Flag set although i = false (first line `91 ..`): the reader announces initProgram(true), accepts all
+   steps and KEEPS both tables (the same `incremental()` test) - such a text is read exactly like an incremental one and is covered by (10):
+   a heuristic of step 2 that names a symbol of step 1 IS delivered (c08_noninc_examples, reproduced on the real code). *)
+Theorem c08_noninc_multistep :
+  (forall o i b1 b2 bs s' w' out,
+     conv_write true cv0 sw0 (prog i (b1 :: b2 :: bs)) = Ok (s', w', out) ->
+     reader_inc out = false -> snd (read_back o out) = false) /\
+  (forall i bodies s' w' out,
+     conv_write true cv0 sw0 (prog i bodies) = Ok (s', w', out) -> reader_inc out = i || starts_with_9 i out).
+Proof. split; [exact multi_step_needs_inc | exact reader_inc_prog]. Qed.
+Print Assumptions c08_noninc_multistep.
+
+(* step 1 names atom 1 `a`; step 2 puts a heuristic on atom 1 (and an edge) *)
+Definition ni_step1 : list call := [CRule 0 [1] []; COutput [97] [1]; CEdge 0 1 []].
+Definition ni_step1x : list call := [CExternal 1 2; COutput [97] [1]].      (* the first written line is `91 ..` *)
+Definition ni_step2 : list call := [CRule 0 [2] [1]; CHeuristic 1 1 3 4 [2]; CEdge 1 2 [2]; COutput [98] [2]].
+Example c08_noninc_examples :
+  (* (a) not incremental, first line a rule: step 1 is delivered, then the reader fails; nothing of step 2 is delivered *)
+  (exists s w out, conv_write true cv0 sw0 (prog false [ni_step1; ni_step2]) = Ok (s, w, out) /\ reader_inc out = false /\
+     read_back (mkO true true true) out =
+       ([CInit false; CBegin; CRule 0 [2] []; CRule 0 [3] []; COutput [97] [2]; CEdge 0 1 [3]; CRule 0 [] [1]; CEnd], false)) /\
+  (* (b) not incremental, first line an external: read as an incremental text, table kept, the heuristic on `a` comes back in step 2 *)
+  (exists s w out, conv_write true cv0 sw0 (prog false [ni_step1x; ni_step2]) = Ok (s, w, out) /\ reader_inc out = true /\
+     snd (read_back (mkO true true true) out) = true /\
+     hd CEnd (fst (read_back (mkO true true true) out)) = CInit true /\
+     filter is_heu_call (fst (read_back (mkO true true true) out)) = [CHeuristic 2 1 3 4 [3]]) /\
+  (* the same two steps as an incremental program *)
+  (exists s w out, conv_write true cv0 sw0 (prog true [ni_step1; ni_step2]) = Ok (s, w, out) /\
+     snd (read_back (mkO true true true) out) = true /\
+     filter is_heu_call (fst (read_back (mkO true true true) out)) = [CHeuristic 2 1 3 4 [4]]).
+Proof.
+  split; [|split]; do 3 eexists; (split; [vm_compute; reflexivity|]); repeat split; vm_compute; reflexivity.
+Qed.
+
+(* non-vacuity of (10)/(11): a genuine TWO-STEP incremental program.  Step 1: a rule, `a` on atom 1, `p("a,b",f(1,2))` on atom 2, an external,
+   a heuristic on `a`, one on atom 9 that never occurs (dropped), edge 0 -> 1.  Step 2: a rule, `b` on atom 5, a heuristic on atom 1 = `a`
+   (NAMED IN STEP 1: found in the table the reader kept), one on the unnamed atom 3 (gets `_atom(4)` in step 2), one on `b` with a compound
+   condition and extreme bias / priority, one on atom 8 that never occurs (dropped), edges 1 -> 2 (node 1 keeps its number from step 1) and
+   7 -> 0, release of the external.  The hypotheses hold; the pipeline delivers 1 + 3 heuristics and 1 + 2 edges. *)
+Definition ms_step1 : list call :=
+  [CRule 0 [1] [2; -3]; COutput [97] [1]; COutput nm_pab [2]; CExternal 4 2;
+   CHeuristic 1 1 (-5) 7 [2]; CHeuristic 9 0 1 1 []; CEdge 0 1 [1]].
+Definition ms_step2 : list call :=
+  [CRule 0 [5] [1]; COutput [98] [5]; CHeuristic 1 4 7 0 [5]; CHeuristic 3 2 1 1 [];
+   CHeuristic 5 0 (-2147483648) 2147483647 [-2; 3]; CHeuristic 8 0 1 1 []; CEdge 1 2 [5]; CEdge 7 0 []; CExternal 4 3].
+Example c08_trip_nonvacuous_2steps :
+  Forall body_ok [ms_step1; ms_step2] /\
+  exists s w out, conv_write true cv0 sw0 (prog true [ms_step1; ms_step2]) = Ok (s, w, out) /\ next s <= SMID_MOD /\
+    snd (read_back (mkO true true true) out) = true /\
+    filter is_heu_call (fst (read_back (mkO true true true) out)) =
+      [CHeuristic 2 1 (-5) 7 [6];
+       CHeuristic 2 4 7 0 [10]; CHeuristic 4 2 1 1 [11]; CHeuristic 9 0 (-2147483648) 2147483647 [12]] /\
+    filter is_edge_call (fst (read_back (mkO true true true) out)) = [CEdge 0 1 [8]; CEdge 1 2 [14]; CEdge 3 0 [15]] /\
+    filter is_ext_call (fst (read_back (mkO true true true) out)) = [CExternal 5 2; CExternal 5 3] /\
+    filter is_out_call (fst (read_back (mkO true true true) out)) =
+      [COutput [97] [2]; COutput nm_pab [3]; COutput (fmt_atom_s 4) [4]; COutput [98] [9]].
+Proof.
+  split.
+  { repeat (apply Forall_cons; [split; [reflexivity|]|]); try apply Forall_nil;
+      repeat (apply Forall_cons; [cbn [call_ok]; try exact I|]); try apply Forall_nil;
+      try (split; [apply good_nameb_ok; vm_compute; reflexivity | repeat split; vm_compute; reflexivity]);
+      unfold heu_emax, C_INT_MIN, C_INT_MAX; lia. }
   do 3 eexists. split; [vm_compute; reflexivity|]. split; [vm_compute; discriminate|]. repeat split; vm_compute; reflexivity.
 Qed.
